@@ -146,6 +146,11 @@ def wrapper_repeat(rnd, kind):
             a, b = sorted((t, rnd.randrange(0, 65) / 64))
             if a < b:
                 ops.append(("iv", a, b))
+        # ... and queries that reach past the end of the object's interval (clamped, with a warning) in between
+        if kind != "reverse":
+            ops.insert(len(ops) // 2, ("iv", 0.9, 1.3))
+            ops.insert(len(ops) // 3, ("pt", 1.25))
+            ops.append(("iv", 0.5, 2.5))
         ops = ops + ops[::-1] + ops
         for op in ops:
             if op[0] == "pt":
